@@ -908,6 +908,10 @@ impl BuiltInFunction {
                 };
 
                 let result: Primitive = match this {
+                    // a negative number has no square root: a failure, not a NaN the program goes on with
+                    Primitive::Int(i32) if *i32 < 0 => bail!("sqrt of the negative number {i32}"),
+                    Primitive::BigInt(i128) if *i128 < 0 => bail!("sqrt of the negative number {i128}"),
+                    Primitive::Float(f64) if *f64 < 0.0 => bail!("sqrt of the negative number {f64}"),
                     Primitive::Int(i32) => Primitive::Float(f64::from(*i32).sqrt()),
                     Primitive::BigInt(i128) => Primitive::Float((*i128 as f64).sqrt()),
                     Primitive::Byte(u8) => Primitive::Float((*u8 as f64).sqrt()),
